@@ -1064,6 +1064,29 @@ fn cb_finalize(node: &Node) {
             return;
         }
     }
+    // "strong_count() always equals the number of Cc pointers that currently exist" - also as seen from inside a
+    // finalizer: the counts of the objects this one points to (no drop glue in progress, no caught panic before)
+    if !c.destructor_on_stack() && !std::thread::panicking() {
+        let m = c.model.borrow();
+        if m.faults == 0 {
+            let mut bad: Option<(usize, u32, u32)> = None;
+            for s in 0..S {
+                if let (Some(t), Ok(cell)) = (m.objs[id].cells[s], node.cells[s].try_borrow()) {
+                    if let Some(cc) = cell.as_ref() {
+                        let (real, want) = (cc.strong_count(), m.count(t as usize));
+                        if real != want && !m.objs[t as usize].leaky && !m.objs[t as usize].limbo {
+                            bad = Some((t as usize, real, want));
+                        }
+                    }
+                }
+            }
+            drop(m);
+            if let Some((t, real, want)) = bad {
+                v!("C04", "P-count", "inside the finalizer of object #{}: strong_count() of object #{} is {} but {} Cc pointers to it exist", id, t, real, want);
+                return;
+            }
+        }
+    }
     c.note_collector_or_rc_finalizer();
     let _f = FrameGuard::new(Frame::Finalizer(node.id));
     crash_point(CpKind::Finalize);
@@ -1258,6 +1281,12 @@ fn g_is_empty() -> bool {
 
 /// Creates a node from inside a callback (or at top level). Returns None if the object budget is exhausted.
 fn make_node(expect_finalized: Option<bool>) -> Option<(u8, Cc<Node>)> {
+    make_node_owning(expect_finalized, None)
+}
+
+/// `own`: a handle (to model object `t`) that the value owns in its cell 0 *before* `Cc::new` boxes it: while the
+/// automatic collection of `Cc::new` runs, that Cc is held by a value no box contains yet
+fn make_node_owning(expect_finalized: Option<bool>, own: Option<(u8, Cc<Node>)>) -> Option<(u8, Cc<Node>)> {
     let c = ctx();
     let id = {
         let mut m = c.model.borrow_mut();
@@ -1272,8 +1301,23 @@ fn make_node(expect_finalized: Option<bool>) -> Option<(u8, Cc<Node>)> {
     let cc = {
         let _f = FrameGuard::new(Frame::Api { collect_like: true, collecting: false });
         let depth = c.stack.borrow().len();
-        match catch_unwind(AssertUnwindSafe(|| Cc::new(Node::new(id)))) {
-            Ok(cc) => cc,
+        let value = Node::new(id);
+        let owned_t = own.as_ref().map(|x| x.0);
+        if let Some((t, h)) = own {
+            *value.cells[0].borrow_mut() = Some(h);
+            c.model.borrow_mut().inflight.push(t);
+        }
+        match catch_unwind(AssertUnwindSafe(move || Cc::new(value))) {
+            Ok(cc) => {
+                if let Some(t) = owned_t {
+                    let mut m = c.model.borrow_mut();
+                    if let Some(pos) = m.inflight.iter().rposition(|x| *x == t) {
+                        m.inflight.remove(pos);
+                    }
+                    m.objs[id as usize].cells[0] = Some(t);
+                }
+                cc
+            },
             Err(p) => {
                 unwind_fix_stack(depth);
                 // The value was dropped by the unwinding (never boxed)
